@@ -89,6 +89,13 @@ def capture_language(language, filename: str, text: str):
     hits = _patch_all(ofa, fa) + _patch_all(osw, sw)
     try:
         tokens = filter_tokens(lex(get_lexer_for_filename(filename), text, False))
+        # the expressions of a language are what it uses on its N-th file, not only on its first: a few calls before the
+        # one that is recorded (their expressions are recorded too - a pattern that grows from call to call shows up)
+        for _warm in range(3):
+            try:
+                language.extract_headers(tokens)
+            except Exception:  # noqa: BLE001
+                pass
         try:
             language.extract_headers(tokens)
         except Exception:  # noqa: BLE001 - extraction only needs the calls made before the failure
@@ -121,6 +128,13 @@ def capture_header_pairs(language, filename: str, text: str):
     hits = _patch_all(orig, gh)
     try:
         tokens = filter_tokens(lex(get_lexer_for_filename(filename), text, False))
+        # the expressions of a language are what it uses on its N-th file, not only on its first: a few calls before the
+        # one that is recorded (their expressions are recorded too - a pattern that grows from call to call shows up)
+        for _warm in range(3):
+            try:
+                language.extract_headers(tokens)
+            except Exception:  # noqa: BLE001
+                pass
         try:
             language.extract_headers(tokens)
         except Exception:  # noqa: BLE001
